@@ -27,7 +27,11 @@ def concretise(skel, rng):
             self.leaves[name] = v
             return v
     num = Num()
-    spec, _ = K.build_spec(skel, num)
+    sk = dict(skel)
+    pars = sk.pop("parameters", None)
+    spec, _ = K.build_spec(sk, num)
+    if pars and not isinstance(pars, str):
+        spec["parameters"] = list(spec.get("parameters", [])) + [dict(p) for p in pars]
     # histosys variations are absolute histograms: scale them around the nominal
     for ch in spec["channels"]:
         for s in ch["samples"]:
